@@ -106,11 +106,11 @@ Proof.
 Qed.
 
 (* the time of the event that is executed *)
-Lemma step_event_covered st e id d : Inv (fst st) (snd st) -> ev_valid st e -> live (snd st) id d ->
+Lemma step_event_covered st e id d : Inv (fst st) (snd st) -> ev_valid st e -> live (snd st) id d -> d < TMAX ->
   fst (fst (step_event true st e)) <= d.
 Proof.
-  destruct st as [now dr]. cbn [fst snd]. intros [_ Hw] Hv (es & Hin & Hid).
-  destruct (Hw d es Hin) as (w0 & Hw0 & _ & Hle); [intros E; rewrite E in Hid; contradiction|].
+  destruct st as [now dr]. cbn [fst snd]. intros [_ Hw] Hv (es & Hin & Hid) Hfin.
+  destruct (Hw d es Hin) as (w0 & Hw0 & _ & Hle); [intros E; rewrite E in Hid; contradiction|exact Hfin|].
   destruct e as [t ops|ops]; cbn [ev_valid fst snd] in Hv; cbn [step_event].
   - destruct Hv as (_ & Hsc & _). specialize (Hsc w0 Hw0).
     destruct (event_body true t ops dr) as [w dr']. cbn [fst]. lia.
@@ -118,13 +118,13 @@ Proof.
     destruct (wakeup_event true w ops dr) as [wk dr']. cbn [fst]. lia.
 Qed.
 
-Lemma step_event_live st e id d : Inv (fst st) (snd st) -> ev_valid st e -> live (snd st) id d ->
+Lemma step_event_live st e id d : Inv (fst st) (snd st) -> ev_valid st e -> live (snd st) id d -> d < TMAX ->
   (forall o, In o (ev_ops e) -> op_id o <> id) ->
   let t := fst (fst (step_event true st e)) in
   (t = d /\ exists es, In (d, es) (snd (step_event true st e)) /\ In id es) \/
   (t < d /\ live (snd (fst (step_event true st e))) id d).
 Proof.
-  intros Hinv Hv Hl Hne. pose proof (step_event_covered st e id d Hinv Hv Hl) as Hle.
+  intros Hinv Hv Hl Hfin Hne. pose proof (step_event_covered st e id d Hinv Hv Hl Hfin) as Hle.
   destruct st as [now dr]. cbn [fst snd] in *.
   destruct e as [t ops|ops]; cbn [ev_valid fst snd ev_ops] in Hv, Hne; cbn [step_event] in *.
   - destruct Hv as (_ & Hsc & Hwf).
@@ -138,9 +138,9 @@ Qed.
 
 (* ---- woken exactly at the deadline ---- *)
 Lemma step_event_exact st e d es : Inv (fst st) (snd st) -> ev_valid st e ->
-  In (d, es) (snd (step_event true st e)) -> es <> [] -> fst (fst (step_event true st e)) = d.
+  In (d, es) (snd (step_event true st e)) -> es <> [] -> d < TMAX -> fst (fst (step_event true st e)) = d.
 Proof.
-  intros Hinv Hv Hin Hne.
+  intros Hinv Hv Hin Hne Hfin.
   assert (Hpend : In (d, es) (pending (snd st)) /\ d <= fst (fst (step_event true st e))).
   { destruct st as [now dr]. cbn [fst snd] in *.
     destruct e as [t ops|ops]; cbn [ev_valid fst snd] in Hv; cbn [step_event] in *.
@@ -157,40 +157,40 @@ Proof.
   destruct Hpend as [Hp Hle].
   assert (Hl : live (snd st) (hd 0 es) d).
   { exists es. split; [exact Hp|]. destruct es; [contradiction|left; reflexivity]. }
-  pose proof (step_event_covered st e _ d Hinv Hv Hl). lia.
+  pose proof (step_event_covered st e _ d Hinv Hv Hl Hfin). lia.
 Qed.
 
 Theorem log_exact tr : forall st, Inv (fst st) (snd st) -> valid_trace st tr ->
-  forall t d es, In (t, (d, es)) (snd (run_trace true st tr)) -> es <> [] -> t = d.
+  forall t d es, In (t, (d, es)) (snd (run_trace true st tr)) -> es <> [] -> d < TMAX -> t = d.
 Proof.
-  induction tr as [|e r IH]; intros st Hinv Hv t d es Hin Hne; [contradiction|].
+  induction tr as [|e r IH]; intros st Hinv Hv t d es Hin Hne Hfin; [contradiction|].
   destruct Hv as [Hev Hr]. rewrite run_trace_cons in Hin.
   pose proof (step_event_inv st e Hinv Hev) as Hi.
   pose proof (step_event_exact st e d es Hinv Hev) as Hx.
   destruct (step_event true st e) as [[t0 dr'] w]. cbn [fst snd] in *.
   specialize (IH (t0, dr') Hi Hr t d es).
   destruct (run_trace true (t0, dr') r) as [[now' dr''] lg]. cbn [fst snd] in *.
-  apply in_app_or in Hin. destruct Hin as [Hin|Hin]; [|exact (IH Hin Hne)].
+  apply in_app_or in Hin. destruct Hin as [Hin|Hin]; [|exact (IH Hin Hne Hfin)].
   apply in_map_iff in Hin. destruct Hin as (s & Heq & Hs). injection Heq as <- ->.
-  exact (Hx Hs Hne).
+  exact (Hx Hs Hne Hfin).
 Qed.
 
 (* ---- never late, never lost ---- *)
 Theorem never_late_never_lost tr : forall st id d,
-  Inv (fst st) (snd st) -> valid_trace st tr -> live (snd st) id d -> untouched id tr ->
+  Inv (fst st) (snd st) -> valid_trace st tr -> live (snd st) id d -> d < TMAX -> untouched id tr ->
   (exists es, In (d, (d, es)) (snd (run_trace true st tr)) /\ In id es) \/
   (live (snd (fst (run_trace true st tr))) id d /\ fst (fst (run_trace true st tr)) < d /\
    exists w, In w (scheduled (snd (fst (run_trace true st tr)))) /\ fst (fst (run_trace true st tr)) <= w /\ w <= d).
 Proof.
-  induction tr as [|e r IH]; intros st id d Hinv Hv Hl Hun.
+  induction tr as [|e r IH]; intros st id d Hinv Hv Hl Hfin Hun.
   - right. cbn [run_trace fst snd]. split; [exact Hl|].
     destruct Hl as (es & Hin & Hid). destruct Hinv as [Hm Hw].
     assert (Hne : es <> []) by (intros E; rewrite E in Hid; contradiction).
-    split; [exact (mid_future _ _ Hm d es Hin Hne)|exact (Hw d es Hin Hne)].
+    split; [exact (mid_future _ _ Hm d es Hin Hne)|exact (Hw d es Hin Hne Hfin)].
   - destruct Hv as [Hev Hr]. rewrite run_trace_cons.
     pose proof (step_event_inv st e Hinv Hev) as Hi.
     assert (Hne : forall o, In o (ev_ops e) -> op_id o <> id) by (intros o Ho; apply (Hun e o); [left; reflexivity|exact Ho]).
-    pose proof (step_event_live st e id d Hinv Hev Hl Hne) as Hs. cbn zeta in Hs.
+    pose proof (step_event_live st e id d Hinv Hev Hl Hfin Hne) as Hs. cbn zeta in Hs.
     destruct (step_event true st e) as [[t0 dr'] w]. cbn [fst snd] in *.
     assert (Hun' : untouched id r) by (intros e' o He' Ho; apply (Hun e' o); [right; exact He'|exact Ho]).
     specialize (IH (t0, dr') id d Hi Hr).
@@ -198,18 +198,18 @@ Proof.
     destruct Hs as [(-> & es & Hin & Hid)|(Hlt & Hl')].
     + left. exists es. split; [|exact Hid]. apply in_or_app. left.
       apply in_map_iff. exists (d, es). split; [reflexivity|exact Hin].
-    + destruct (IH Hl' Hun') as [(es & Hin & Hid)|H]; [|right; exact H].
+    + destruct (IH Hl' Hfin Hun') as [(es & Hin & Hid)|H]; [|right; exact H].
       left. exists es. split; [|exact Hid]. apply in_or_app. right. exact Hin.
 Qed.
 
 (* the runtime stops only when the event set is empty: a completed run has woken every
    timer that was left alone, by an event stamped exactly with its deadline *)
 Corollary complete_run_wakes_at_deadline tr st id d :
-  Inv (fst st) (snd st) -> valid_trace st tr -> live (snd st) id d -> untouched id tr ->
+  Inv (fst st) (snd st) -> valid_trace st tr -> live (snd st) id d -> d < TMAX -> untouched id tr ->
   scheduled (snd (fst (run_trace true st tr))) = [] ->
   exists es, In (d, (d, es)) (snd (run_trace true st tr)) /\ In id es.
 Proof.
-  intros Hinv Hv Hl Hun Hnil.
-  destruct (never_late_never_lost tr st id d Hinv Hv Hl Hun) as [H|(_ & _ & w & Hw & _)]; [exact H|].
+  intros Hinv Hv Hl Hfin Hun Hnil.
+  destruct (never_late_never_lost tr st id d Hinv Hv Hl Hfin Hun) as [H|(_ & _ & w & Hw & _)]; [exact H|].
   rewrite Hnil in Hw. contradiction.
 Qed.
